@@ -69,6 +69,21 @@ def generate(g, tier):
             invs.append(inv); metas.append(m)
         if invs:
             cases.append(dict(op='cli', home_cfg=home_cfg, files=files, cfgs=cfgs, pre_files=pre, invocations=invs, meta=dict(family='compile', steps=metas, nocorr=True)))
+    # source lines, messages and PRINT texts that look like console markup are reported literally (and never make the command raise)
+    MARK = ['[/]', '[red]', '[/b] x', '[bold]t[/bold]', '[link=y]', '[#ff0000]z', '\\[x]', '[[a]]', '[/red', 'a\\']
+    for mk in MARK:
+        for shape in ('print-ok', 'print-fail', 'warn', 'fail-line', 'fail-import'):
+            files = {}
+            if shape == 'print-ok': text, m = f'PRINT {mk}\nSTRING a', dict(expect='ok', out=['STRING a'])
+            elif shape == 'print-fail': text, m = f'PRINT {mk}\n$STRING 1/0', dict(expect='fail', cls='DivideByZeroError', line=2, prints=[mk.strip()])
+            elif shape == 'warn': text, m = f'STRING ok\nFOO {mk}', dict(expect='ok', out=['STRING ok', f'FOO {mk.strip()}'])
+            elif shape == 'fail-line': text, m = f'PRINT p\nGUI {mk} long', dict(expect='fail', cls='InvalidArgumentsError', line=2, prints=['p'])
+            else:
+                files['proj/lib.txt'] = f'PRINT {mk}\nGUI {mk} long'
+                text, m = 'PRINT before\nSTART lib', dict(expect='fail', cls='InvalidArgumentsError', line=2, prints=['before', mk.strip()])
+            files['proj/s.txt'] = text
+            cases.append(dict(op='cli', home_cfg=None, files=files, cfgs={}, pre_files={}, invocations=[dict(cmd='compile', file='proj/s.txt', output='o.txt')],
+                              meta=dict(family='compile', steps=[m], nocorr=True)))
     for _ in range(count(tier, 30, 250)):
         text = 'REM note\nSTRING body\nALTCHAR 65'
         c1 = dict(include_comments=r.choice([True, False]), flipper_commands=True, stack_limit=r.choice([20, 30]))
